@@ -191,6 +191,36 @@ def _judge(sc):
     return None
 
 
+def _judge_dtype(rng, tag):
+    """A node with a non-default dtype inside a model: its state (what the model reports for it) is its forward result cast to that dtype, and
+    every successor is evaluated on THAT value -- the reported states are a solution of the graph equations."""
+    import reservoirpy as rpy
+    rpy.verbosity(0)
+    from reservoirpy.node import Node
+    from reservoirpy.nodes import Input
+
+    def init(node, x=None, **kw):
+        node.set_input_dim(x.shape[1]); node.set_output_dim(x.shape[1])
+    for dt in (np.int64, np.float32):
+        sc = {"tag": tag, "kind": "dtype", "dtype": np.dtype(dt).name}
+        try:
+            A = Node(forward=lambda n, x: 0.75 * x + 0.3, initializer=init, dtype=dt, name="dt%s%s_A" % (tag, sc["dtype"]))
+            B = Node(forward=lambda n, x: 2.0 * x, initializer=init, name="dt%s%s_B" % (tag, sc["dtype"]))
+            m = Input(name="dt%s%s_in" % (tag, sc["dtype"])) >> A >> B
+            X = scen.fl(scengen.rows(rng, 4, 2)) * 3.0
+            res = m.run(X, return_states="all")
+            a, b = np.asarray(res[A.name], dtype=float), np.asarray(res[B.name], dtype=float)
+            want_a = (0.75 * X + 0.3).astype(dt).astype(float)
+        except Exception as e:  # noqa: BLE001
+            return _viol("dtype:exception", "a model with a %s node raises %r" % (sc["dtype"], e), sc)
+        if not np.allclose(a, want_a, rtol=0, atol=1e-12):
+            return _viol("dtype:state-not-cast", "the reported state of a dtype=%s node is not its forward result cast to that dtype" % sc["dtype"], sc, want_a.tolist(), a.tolist())
+        if not np.allclose(b, 2.0 * a, rtol=0, atol=1e-12):
+            return _viol("dtype:successor-fed-other-value", "the successor of a dtype=%s node was not evaluated on that node's (cast) state: reported states are "
+                         "not a solution of the graph equations (max abs deviation %.3g)" % (sc["dtype"], float(np.max(np.abs(b - 2.0 * a)))), sc, (2.0 * a).tolist(), b.tolist())
+    return None
+
+
 def judge(case):
     return _judge(case["scenario"])
 
@@ -204,10 +234,16 @@ def oracle(ctx, scale=1):
         v = _judge(sc)
         if v:
             out.append(v)
-    return {"evaluations": n, "violations": out,
-            "rule": "Model.run(return_states='all') vs explicit evaluation of each real node after its predecessors; result form"}
+    v = _judge_dtype(rng, "%d" % ctx.seed)
+    if v:
+        out.append(v)
+    return {"evaluations": n + 2, "violations": out,
+            "rule": "Model.run(return_states='all') vs explicit evaluation of each real node after its predecessors; result form; nodes with a non-default dtype"}
 
 
 def replay(payload):
+    if (payload.get("scenario") or {}).get("kind") == "dtype":
+        v = _judge_dtype(core.random.Random(0), "rp")
+        return {"violates": bool(v), "detail": v}
     v = _judge(payload["scenario"])
     return {"violates": bool(v), "detail": v}
